@@ -167,6 +167,13 @@ Proof.
   intros n t Hn Ht. split; [apply generated_quotient_is_model|apply generated_remainder_is_model]; assumption.
 Qed.
 
+(* the survivors of a failed share are the peers other than its target, whatever failed before *)
+Theorem C32_survivors : forall peers target x,
+  (In x (survivingPeersExcept peers target) <-> In x peers /\ x <> target) /\
+  (forall t2, survivingPeersExcept (survivingPeersExcept peers target) t2 =
+              survivingPeersExcept (survivingPeersExcept peers t2) target).
+Proof. intros. split; [apply survivors_spec|intros; apply survivors_commute]. Qed.
+
 Print Assumptions C32_actors_partition.
 Print Assumptions C32_assigned_target_advertises_role.
 Print Assumptions C32_unplaceable_iff_no_target.
@@ -185,3 +192,4 @@ Print Assumptions C32_reassign_roles.
 Print Assumptions C32_reassign_least_loaded.
 Print Assumptions C32_spread_exactly_once.
 Print Assumptions C32_grain_arithmetic_from_source.
+Print Assumptions C32_survivors.
